@@ -21,6 +21,7 @@ import (
 	"os"
 	"strings"
 	"testing"
+	"testing/iotest"
 	"time"
 
 	"github.com/ipfs/boxo/files"
@@ -46,6 +47,38 @@ type node struct {
 	m    meta
 	data []byte
 	es   []entry
+	rk   int // files only: how the content reader delivers its bytes (readerKinds)
+}
+
+// How a file node's reader hands out its content. bytes.Reader never returns data together with io.EOF;
+// iotest.DataErrReader returns the final bytes and io.EOF in the same call (as mime/multipart.Part and
+// many network readers do).
+var readerKinds = []string{"bytes.Reader", "one-byte", "half", "data+EOF", "data+EOF over half"}
+
+func contentReader(data []byte, rk int) io.Reader {
+	switch rk {
+	case 1:
+		return iotest.OneByteReader(bytes.NewReader(data))
+	case 2:
+		return iotest.HalfReader(bytes.NewReader(data))
+	case 3:
+		return iotest.DataErrReader(bytes.NewReader(data))
+	case 4:
+		return iotest.DataErrReader(iotest.HalfReader(bytes.NewReader(data)))
+	}
+	return bytes.NewReader(data)
+}
+
+func readersOf(es []entry, acc []string) []string {
+	for _, e := range es {
+		switch e.n.kind {
+		case kFile:
+			acc = append(acc, readerKinds[e.n.rk])
+		case kDir:
+			acc = readersOf(e.n.es, acc)
+		}
+	}
+	return acc
 }
 type entry struct {
 	name []byte
@@ -109,9 +142,12 @@ func build(n *node, useNilStat bool) files.Node {
 	switch n.kind {
 	case kFile:
 		if unset && useNilStat {
-			return files.NewBytesFile(n.data)
+			if n.rk == 0 {
+				return files.NewBytesFile(n.data)
+			}
+			return files.NewReaderFile(contentReader(n.data, n.rk))
 		}
-		return files.NewReaderStatFile(bytes.NewReader(n.data), &fi{mode: os.FileMode(n.m.mode), mt: mkTime(n.m)})
+		return files.NewReaderStatFile(contentReader(n.data, n.rk), &fi{mode: os.FileMode(n.m.mode), mt: mkTime(n.m)})
 	case kLink:
 		return files.NewSymlinkFile(string(n.data), mkTime(n.m))
 	}
@@ -301,7 +337,7 @@ func genNode(e *vh.Env, depth int) *node {
 	k := r.Intn(10)
 	switch {
 	case k < 5 || (depth <= 0 && k < 8):
-		return &node{kind: kFile, m: genMeta(e), data: genBody(e)}
+		return &node{kind: kFile, m: genMeta(e), data: genBody(e), rk: r.Intn(len(readerKinds))}
 	case k < 7 || depth <= 0:
 		m := genMeta(e)
 		m.mode = 1<<27 | 0o777
@@ -348,6 +384,9 @@ var unset = meta{0, zeroSec, 0}
 
 // corpus: hand-written trees; the first one is the witness of finding C39-1.
 var corpus = [][]entry{
+	// a file whose reader returns its last bytes together with io.EOF (all of them in one call with a large buffer)
+	{en("f", &node{kind: kFile, m: unset, data: []byte("data"), rk: 3}), en("g", &node{kind: kFile, m: meta{0o644, 1604320500, 0}, data: []byte("0123456789"), rk: 4}),
+		en("e", &node{kind: kFile, m: unset, data: nil, rk: 3})},
 	{en("f", f(meta{0o644, zeroSec, 0}, "data"))},
 	{en("l", l(zeroSec, 0, "target"))},
 	{en("d", d(meta{0o755, zeroSec, 0}, en("x", f(unset, ""))))},
@@ -367,16 +406,10 @@ var corpus = [][]entry{
 		en("a.txt", f(meta{0o754, 1604320500, 55555}, "bleep")), en("résumé🥳.txt", f(unset, "bloop")))), en("file.txt", f(unset, "Some text! :)"))},
 }
 
-func runTree(t *testing.T, e *vh.Env, cs *vh.Cases, st *vh.Stats, es []entry, form bool, tag string) {
-	r := e.Rng
-	rootNode := &node{kind: kDir, m: unset, es: es}
-	real := build(rootNode, r.Intn(2) == 0).(files.Directory)
-	observeInput(rootNode, build(rootNode, false)) // metadata as the nodes report it (independent instance: iterators are one-shot)
-	mfr := files.NewMultiFileReader(real, form, r.Intn(2) == 0)
-	// read the stream with a varying buffer size
+// drain reads a MultiFileReader to the end with the given buffer size.
+func drain(t *testing.T, mfr *files.MultiFileReader, bufSize int, tag string) []byte {
 	var stream bytes.Buffer
-	sizes := []int{1, 2, 3, 7, 16, 64, 512, 4096}
-	buf := make([]byte, sizes[r.Intn(len(sizes))])
+	buf := make([]byte, bufSize)
 	// NOTE: once the closing delimiter has been written, Read appends another closing delimiter on every
 	// call for which its internal buffer is not drained by that call, so a reader with a buffer smaller than
 	// the delimiter (68 bytes) never sees io.EOF. This is outside C39 (the first closing delimiter ends the
@@ -395,24 +428,68 @@ func runTree(t *testing.T, e *vh.Env, cs *vh.Cases, st *vh.Stats, es []entry, fo
 			break
 		}
 		if guard > 1000000 {
-			t.Fatalf("MultiFileReader does not terminate: %s form=%v buf=%d len=%d", tag, form, len(buf), stream.Len())
+			t.Fatalf("MultiFileReader does not terminate: %s buf=%d len=%d", tag, len(buf), stream.Len())
 		}
 	}
-	raws := rawParts(t, stream.Bytes(), mfr.Boundary())
-	out, bad, fail := parseAndWalk(t, stream.Bytes(), mfr.Boundary())
+	return stream.Bytes()
+}
+
+var bufSizes = []int{1, 2, 3, 5, 7, 16, 64, 67, 68, 69, 100, 512, 4096, 32768}
+
+// serializeAndCheck serializes the real directory [real] (whose model description is [es]) with the real
+// MultiFileReader, emits one CTree case (raw parts + walked parse result) and returns the stream.
+func serializeAndCheck(t *testing.T, e *vh.Env, cs *vh.Cases, st *vh.Stats, es []entry, real files.Directory, form bool, tag, hop string) (stream []byte, boundary string, out []entry, ok bool) {
+	r := e.Rng
+	mfr := files.NewMultiFileReader(real, form, r.Intn(2) == 0)
+	bufSize := bufSizes[r.Intn(len(bufSizes))]
+	stream = drain(t, mfr, bufSize, tag)
+	boundary = mfr.Boundary()
+	raws := rawParts(t, stream, boundary)
+	rp := map[string]any{"kind": "tree", "hop": hop, "form": form, "tree": entriesCoq(es), "readers": readersOf(es, nil),
+		"read_buffer": bufSize, "from": tag}
+	out, bad, fail := parseAndWalk(t, stream, boundary)
 	if fail != "" {
-		st.Violate("parsing the serialized tree: "+fail, "", map[string]any{"kind": "tree", "form": form, "tree": entriesCoq(es), "from": tag})
-		return
+		st.Violate("parsing the serialized tree: "+fail, "", rp)
+		return nil, "", nil, false
 	}
 	term := "(CTree " + vh.Bool(form) + " " + entriesCoq(es) + " " + vh.List(raws) + " " + entriesCoq(out) + " " + vh.Bool(bad) + ")"
-	rp := map[string]any{"kind": "tree", "form": form, "tree": entriesCoq(es), "from": tag}
 	cs.Add(term, rp)
 	nparts, depth, metas := shape(es, 1)
-	st.Case(fmt.Sprintf("T|%v|%s", form, entriesCoq(es)), nparts >= 2 && (metas > 0 || !form))
-	st.Count("tree/" + map[bool]string{true: "form", false: "attachment"}[form])
+	st.Case(fmt.Sprintf("T%s|%v|%s|%v", hop, form, entriesCoq(es), readersOf(es, nil)), nparts >= 2 && (metas > 0 || !form))
+	st.Count("tree/" + hop + "/" + map[bool]string{true: "form", false: "attachment"}[form])
 	st.Count(fmt.Sprintf("tree/depth=%d", depth))
 	st.Count(fmt.Sprintf("tree/parts=%s", bucket(nparts)))
+	st.Count(fmt.Sprintf("read-buffer=%d", bufSize))
+	for _, k := range readersOf(es, nil) {
+		st.Count("file-reader/" + hop + "/" + k)
+	}
 	st.Sample(rp, 3)
+	return stream, boundary, out, !bad
+}
+
+// runTree: hop 1 serializes a generated tree of real nodes and parses it back; hop 2 (when asked) parses the
+// hop-1 stream again WITHOUT walking it and hands that parsed directory itself to a second MultiFileReader
+// (its file nodes are multipart parts, whose Read returns the last bytes together with io.EOF), then parses
+// and walks the second stream: contents are compared after both hops.
+func runTree(t *testing.T, e *vh.Env, cs *vh.Cases, st *vh.Stats, es []entry, form bool, hop2 bool, tag string) {
+	r := e.Rng
+	rootNode := &node{kind: kDir, m: unset, es: es}
+	real := build(rootNode, r.Intn(2) == 0).(files.Directory)
+	observeInput(rootNode, build(rootNode, false)) // metadata as the nodes report it (independent instance: iterators are one-shot)
+	stream, boundary, out, ok := serializeAndCheck(t, e, cs, st, es, real, form, tag, "hop1")
+	if !ok || !hop2 {
+		return
+	}
+	parsed, err := files.NewFileFromPartReader(multipart.NewReader(bytes.NewReader(stream), boundary), "multipart/form-data")
+	if err != nil {
+		t.Fatalf("NewFileFromPartReader: %v", err)
+	}
+	// the model description of the parsed directory is what the walk of the same bytes saw: [out]
+	form2 := form
+	if r.Intn(4) == 0 {
+		form2 = !form
+	}
+	serializeAndCheck(t, e, cs, st, out, parsed, form2, tag, "hop2")
 }
 
 func bucket(n int) string {
@@ -681,7 +758,9 @@ var partsCorpus = [][]part{
 func TestC39(t *testing.T) {
 	e := vh.Load(t)
 	st := vh.NewStats("CTree: generated trees (depth <= 3, <= 4 entries per directory, hostile names, modes incl. type bits, " +
-		"unset/boundary/random mtimes) serialized by NewMultiFileReader in form and attachment mode with varying read buffer sizes, " +
+		"unset/boundary/random mtimes; file contents behind bytes.Reader / one-byte / half / data-together-with-EOF readers) serialized by " +
+		"NewMultiFileReader in form and attachment mode with read buffers of 1..32768 bytes, and (hop2, half of the trees) the parsed " +
+		"directory itself re-serialized by a second MultiFileReader and parsed again, " +
 		"raw parts and the walked NewFileFromPartReader result compared with the model and the round-trip specification; " +
 		"CParse: hand-made part sequences (implicit directories, out-of-order and repeated names, dot-dot, bad escapes, " +
 		"hostile query strings, bad headers) parsed by the real code and compared with the model. " +
@@ -689,16 +768,16 @@ func TestC39(t *testing.T) {
 		"distinct by (mode, tree) / part headers")
 	cs := vh.NewCases(e, "From V Require Import model.M_C39.\nOpen Scope Z_scope.", "case", "check_case", 200)
 	for i, es := range corpus {
-		runTree(t, e, cs, st, es, true, fmt.Sprintf("corpus%d/form", i))
-		runTree(t, e, cs, st, es, false, fmt.Sprintf("corpus%d/attachment", i))
+		runTree(t, e, cs, st, es, true, true, fmt.Sprintf("corpus%d/form", i))
+		runTree(t, e, cs, st, es, false, true, fmt.Sprintf("corpus%d/attachment", i))
 	}
 	for i, ps := range partsCorpus {
 		runParts(t, e, cs, st, ps, fmt.Sprintf("partscorpus%d", i))
 	}
-	nTree, nParts := e.Pick(700, 12000), e.Pick(900, 15000)
+	nTree, nParts := e.Pick(500, 9000), e.Pick(800, 14000)
 	for i := 0; i < nTree; i++ {
 		es := genEntries(e, 2, 4)
-		runTree(t, e, cs, st, es, e.Rng.Intn(4) != 0, "gen")
+		runTree(t, e, cs, st, es, e.Rng.Intn(4) != 0, e.Rng.Intn(2) == 0, "gen")
 	}
 	for i := 0; i < nParts; i++ {
 		runParts(t, e, cs, st, genParts(e), "gen")
